@@ -597,7 +597,7 @@ class V : public RecursiveASTVisitor<V> {
       BO.AddTemporaryDtors = false;
       BO.AddEHEdges = false;
       BO.AddInitializers = true;
-      BO.PruneTriviallyFalseEdges = false;
+      BO.PruneTriviallyFalseEdges = true;   // infeasible edges are still serialised, marked in "unr"
       auto cfg = CFG::buildCFG(F, Body, &X.C, BO);
       if (!cfg) {
         *OS << ",\"cfg\":null";
